@@ -137,6 +137,10 @@ Probes == <<
     P("insn_class", "last", K("insn_class", A)),
     P("insn_class", "last", K("insn_class", "[[Lp/A$I;")),
     P("insn_class", "last", K("insn_class", "[I")),
+    (* string constants that spell a mapped class (dotted, slashed, as a descriptor): text, not references - nothing else is renamed *)
+    P("ldc_string", "last", K("ldc_string", "p.A")),
+    P("ldc_string", "last", K("ldc_string", "p/A")),
+    P("ldc_string", "last", K("ldc_string", "Lp/A;")),
     P("ldc_class", "last", K("ldc_class", B)),
     P("ldc_class", "last", K("ldc_class", "[Lp/A;")),
     P("ldc_mtype", "last", D("ldc_mtype", "(Lp/A;[Lp/B;I)Lp/A$I;")),
